@@ -247,7 +247,7 @@ Theorem C06_units_transfer_reuse_or_fresh : forall fuel fx libs orphan u s s' mo
      ((u_name t = u_name u /\ changed = []) \/ (u_name t <> u_name u /\ changed = [(u_name u, u_name t)])))
   \/
   (moved = true /\
-   (forall t, In t (us_T s) -> units_equivalent libs [us_T s; home] 0 (u_name t) 1 q = FOk false) /\
+   (forall t, In t (us_T s) -> units_equivalent_g fx libs [us_T s; home] 0 (u_name t) 1 q = FOk false) /\
    exists T1 u', grows (us_T s) T1 /\ us_T s' = T1 ++ [u'] /\ u_name u' = fname /\ u_imp u' = u_imp u /\
      ~ In fname (map u_name T1) /\
      ((fname = u_name u /\ changed = []) \/
@@ -357,20 +357,48 @@ Print Assumptions C06_flatten_leaves_inputs_nonvacuous.
 
 (* ------------------------------------------------------------------------------------------------ flatten_terminates *)
 
-(* flatten_terminates as stated -- "on an acyclic import graph the model returns for enough fuel" -- is FALSE: the renaming of
-   an imported units can close a units cycle (C06-units-name-capture), and then no amount of fuel helps.  The witness is an
-   acyclic import graph (file rank decreasing along imports) with acyclic units in every file; it passes resolveImports and
-   the pre-checks of flattenModel; the library dies of stack exhaustion (checks/c06.py: hand_kf_units_cycle_by_renaming). *)
+(* flatten_terminates as stated -- "on an acyclic import graph the model returns for enough fuel" -- was FALSE for the code
+   before 85ba0d4 (flag fx_cycle_guard = false): the renaming of an imported units can close a units cycle
+   (C06-units-name-capture), and then no amount of fuel helps.  The witness is an acyclic import graph (file rank decreasing
+   along imports) with acyclic units in every file; it passes resolveImports and the pre-checks of flattenModel; the library
+   died of stack exhaustion. *)
 Theorem C06_flatten_terminates_refuted :
   acyclic_imports [term_lib] term_origin (fun _ => 0) 1 /\
-  forall rounds fuel n0, flatten_model rounds fuel flat_current_fixes [term_lib] term_origin n0 = FFuel.
+  forall rounds fuel n0, flatten_model rounds fuel flat_no_cycle_guard [term_lib] term_origin n0 = FFuel.
 Proof. split; [exact FlattenTerm.term_witness_acyclic | exact FlattenTerm.flatten_terminates_refuted]. Qed.
 Print Assumptions C06_flatten_terminates_refuted.
 
-(* NOT PROVED: flatten_terminates_partial -- termination under a hypothesis that excludes name capture (e.g. the isomorphism
-   condition of C06_units_meaning_no_capture for every transfer) with rounds = maximal import rank + 1.  It needs a measure
+(* with hasUnitsCycle() consulted first (85ba0d4, fx_cycle_guard = true: Units::equivalent answers false on a cyclic units and
+   hasUnitsImports does not follow its references) the same input flattens, and correctly: u1 = [u1_1], u1_1 the base unit *)
+Theorem C06_flatten_cycle_guard_returns :
+  exists flat st, flatten_model 10 50 flat_current_fixes [term_lib] term_origin 100 = FOk (flat, st) /\
+    map (fun u => (u_name u, map uc_ref (u_defs u))) (m_units flat) = [("u0", []); ("u1", ["u1_1"]); ("u1_1", [])].
+Proof. exact FlattenTerm.flatten_cycle_guard_returns. Qed.
+Print Assumptions C06_flatten_cycle_guard_returns.
+
+(* the guard at the level of one call: C08's model runs out of fuel exactly on a units cycle; with the guard that is "false" *)
+Theorem C06_equivalent_guarded_true_iff : forall fx libs ms ia na ib nb,
+  units_equivalent_g fx libs ms ia na ib nb = FOk true -> units_equivalent libs ms ia na ib nb = FOk true.
+Proof. exact FlattenProofs.ueg_true. Qed.
+Print Assumptions C06_equivalent_guarded_true_iff.
+
+(* ... but termination on acyclic import graphs is still not true of the code on HEAD: the recursion of
+   transferUnitsRenamingIfRequired has no guard.  Bounded witness (acyclic imports, acyclic units per file, pre-checks pass; the
+   library dies of stack exhaustion: hand_kf_transfer_recursion); the model answers FFuel with the fuel of the correspondence run
+   and with much more.  NOT PROVED: that it does so for EVERY fuel (the state changes at every level: a generalised invariant
+   was not written). *)
+Theorem C06_flatten_with_guard_diverges_bounded :
+  acyclic_imports [rec_lib] rec_origin (fun _ => 0) 1 /\
+  flatten_model 40 400 flat_current_fixes [rec_lib] rec_origin 100 = FFuel /\
+  flatten_model 400 1600 flat_current_fixes [rec_lib] rec_origin 100 = FFuel.
+Proof. split; [exact FlattenTerm.rec_witness_acyclic | exact FlattenTerm.flatten_with_guard_diverges_bounded]. Qed.
+Print Assumptions C06_flatten_with_guard_diverges_bounded.
+
+(* NOT PROVED (and false as stated, see above): C06_flatten_terminates_with_guard -- with fx_cycle_guard = true Units::equivalent no longer diverges
+   (units_equivalent_g never answers FFuel: by definition), so on an acyclic import graph the remaining sources of FFuel are the
+   model's own fuelled loops; termination with rounds = maximal import rank + 1 is plausible but needs a measure
    through nine fuelled functions (transfer, retrieve / flatten_units_imports, referenced_units, units_used, required_loop,
-   flatten_component_imports, has_units_imports, the two top loops) and acyclicity of every world handed to Units::equivalent;
-   not attempted beyond the statement.  C07's hang through an encapsulated child (C07-flatten-import-cycle-through-child) is
+   flatten_component_imports, has_units_imports, the two top loops) -- referenced_units still recurses without a guard in the MODEL (in the
+   code it is guarded too; unreachable after the pre-checks) --; not attempted beyond the statement.  C07's hang through an encapsulated child (C07-flatten-import-cycle-through-child) is
    no longer reachable after the pre-checks on HEAD: since 0a59695 hasUnresolvedImports follows the placeholder's children and
    flattenModel refuses that example ("The model has unresolved imports"). *)
